@@ -3,10 +3,24 @@
   In the model every `unwrap`, slice and index of the Rust code is an explicit `panic` outcome.
   Proved: for EVERY string (any Unicode) the square parser and the FEN loader return `ok` or `err`,
   never `panic` (`pointFromStr_total`, `fromFen_total`); `point_roundtrip` (parse ∘ display = id on
-  the 64 squares).  Not proved (decided by the correspondence with the SPEC's own FEN reader on
-  generated legal positions with counters up to 10^6): `fromFen_toFen` (faithfulness).
+  the 64 squares).
+  FAITHFULNESS (Proofs/FenFaithful, over the grammar of Spec/CanonFen):
+    * `wellformed_fen_is_read_faithfully`: every well-formed FEN text — eight ranks of piece letters and
+      digits 1..8 each describing eight squares, `w`/`b`, any castling field without a blank, `-` or a
+      square, two decimal counters below 2^32 (so also counters above 255) — is ACCEPTED, and the position
+      holds exactly the described piece on every square, the side, the four rights (by the letters present),
+      the en passant square;
+    * `every_position_loads_from_its_fen`: for every SPEC position P (64 cells, en passant square on the
+      board) and all counters, `from_fen (canonText P half full) = ok p` with `abs p = P`; if P is legal then
+      `p` is well-formed (`WFp`: ring, no sentinel inside, king caches exact) and its key exact (`Inv`) — so
+      the C01/C02/C04/C13 theorems apply to every FEN-given legal position;
+    * `canonText` is tied to the FEN strings actually sent to the implementation: the generator emits a
+      `fen` operation only if the SPEC printer's string equals `canonText` of the position (run time check,
+      counted in the evidence).
 -/
 import Walleye.Model.Fen
+import Walleye.Proofs.FenFaithful
+import Walleye.Proofs.StartWF
 namespace Walleye
 
 theorem pointFromStr_total (s : List Char) : pointFromStr s ≠ .panic := by
@@ -67,5 +81,37 @@ theorem fromFen_total (h : Hasher) (s : List Char) : fromFen h s ≠ .panic := b
 theorem point_roundtrip : ∀ r : Fin 8, ∀ c : Fin 8,
     pointFromStr (pointDisplay ⟨r.val + 2, c.val + 2⟩) = .ok ⟨r.val + 2, c.val + 2⟩ := by
   decide +kernel
+
+/-- every well-formed FEN text is accepted and read as the position it describes -/
+theorem wellformed_fen_is_read_faithfully (h : Hasher) (rows : List (List Tok)) (side : Color) (rights : List Char)
+    (ep : Option Point) (half full : List Char) (hlen : rows.length = 8) (hrows : ∀ row ∈ rows, RowOK row)
+    (hr : ' ' ∉ rights) (hep : ∀ e, ep = some e → OnBoard e) (hh : CounterOK half) (hf : CounterOK full) :
+    ∃ p, fromFen h (fenText rows side rights ep half full) = .ok p ∧
+      p.toMove = side ∧ p.ep = ep ∧ p.wks = rights.contains 'K' ∧ p.wqs = rights.contains 'Q' ∧
+      p.bks = rights.contains 'k' ∧ p.bqs = rights.contains 'q' ∧
+      (∀ i row, rows[i]? = some row → ∀ j x, (rowCells row)[j]? = some x →
+        p.board.get (2 + i) (2 + j) = sqOf x) ∧
+      KeyOK h p ∧ RingOK p.board := by
+  obtain ⟨p, a, hload, h1, h2, h3, h4, h5, h6, _, _, _, _, hcells⟩ :=
+    fromFen_reads h rows side rights ep half full hlen hrows hr hep hh hf
+  obtain ⟨hk, hring⟩ := fromFen_inv h _ p hload
+  exact ⟨p, hload, h1, h2, h3, h4, h5, h6, hcells, hk, hring⟩
+
+/-- every position is loaded from its canonical FEN text; a legal one is well-formed with an exact key -/
+theorem every_position_loads_from_its_fen (h : Hasher) (P : Spec.Position) (hsz : P.cells.size = 64)
+    (hep : ∀ e, P.ep = some e → InB e) (half full : List Char) (hh : CounterOK half) (hf : CounterOK full) :
+    ∃ p, fromFen h (canonText P half full) = .ok p ∧ abs p = P ∧ (LP P → WFp p ∧ Inv h p) :=
+  fromFen_canonical h P hsz hep half full hh hf
+
+/-- the premises are satisfiable and the text is the familiar one: the start position, counters 0 and 1 -/
+theorem start_canonical_text :
+    canonText (abs startPosition) ['0'] ['1'] =
+      ['r','n','b','q','k','b','n','r','/','p','p','p','p','p','p','p','p','/','8','/','8','/','8','/','8','/',
+       'P','P','P','P','P','P','P','P','/','R','N','B','Q','K','B','N','R',' ','w',' ','K','Q','k','q',' ','-',' ',
+       '0',' ','1'] := by decide +kernel
+
+/-- a counter above 255 is a well-formed counter (the u8 defect that was repaired) -/
+theorem counter_above_255 : CounterOK ['3','0','0'] ∧ CounterOK ['1','0','0','0','0','0','0'] := by
+  refine ⟨⟨by simp, by decide, by decide⟩, ⟨by simp, by decide, by decide⟩⟩
 
 end Walleye
